@@ -150,8 +150,8 @@ def call(inp):
         an = tuple(an) if inp.get("tuple_form") else [tuple(x) for x in an]
         return g.generate_anomalous_data(a["n"], an, _materialise(a["means"], arr), _materialise(a["variances"], arr), a["seed"])
     if fn == "generate_alternating_data":
-        return g.generate_alternating_data(a["n_segments"], a["segment_length"], a["p"], a["mean"], a["variance"],
-                                           a["n_affected"] / a["p"], a["seed"])
+        prop = a["proportion"] if "proportion" in a else a["n_affected"] / a["p"]
+        return g.generate_alternating_data(a["n_segments"], a["segment_length"], a["p"], a["mean"], a["variance"], prop, a["seed"])
     raise KeyError(fn)
 
 
@@ -456,6 +456,15 @@ def run(tier="quick", seed=0, repo="/repo"):
                         do({"fn": "generate_alternating_data",
                             "args": {"n_segments": nseg, "segment_length": n // nseg, "p": p, "mean": 5.0, "variance": 4.0,
                                      "n_affected": naff, "seed": s}})
+    # ---- generate_alternating_data, wider frames: "k of p columns" requested as the decimal proportion k/p (p a divisor of 100, so
+    #      the proportion is a two-digit decimal; its float product with p may sit one ulp off k: 0.07 * 100 = 7.000000000000001)
+    for p in (4, 10, 20, 25, 50, 100):
+        for k in range(p + 1):
+            if p > 25 and tier == "quick" and k % 3 and k not in (7, 14, 28, 55, 57):
+                continue
+            do({"fn": "generate_alternating_data",
+                "args": {"n_segments": 3, "segment_length": 2, "p": p, "mean": 5.0, "variance": 4.0, "n_affected": k,
+                         "proportion": float(f"{k / p:.2f}"), "seed": 1}})
     # ---- add_linspace_outliers
     for rows in range(1, 9):
         for p in (1, 2, 3):
